@@ -41,6 +41,8 @@ _TT = {'lt': {'lt': True, 'le': True, 'gt': False, 'ge': False, 'eq': False, 'ne
        'gt': {'lt': False, 'le': False, 'gt': True, 'ge': True, 'eq': False, 'ne': True},
        'un': {'lt': False, 'le': False, 'gt': False, 'ge': False, 'eq': False, 'ne': True}}
 _FLIP = {'lt': 'gt', 'gt': 'lt', 'eq': 'eq', 'un': 'un'}
+# relation of the query to (lower, upper) end of the bracket the lookup returns, per range scenario
+_BRACKET = {'below': ('lt', 'lt'), 'first': ('eq', 'lt'), 'inside': ('ge', 'lt'), 'last': ('gt', 'eq'), 'above': ('gt', 'gt'), 'nan': ('un', 'un')}
 
 
 class KModel(Model):
@@ -86,6 +88,26 @@ class KModel(Model):
                         rel = _FLIP[rel]
                     self.range_tests.append((axis, which, p, op if not flip else 'flipped-' + op))
                     return _TT[rel][op]
+            # query vs the ends of the looked-up bracket (postcondition of the lookup, C11)
+            for (p, q, flip) in ((sa, sb, False), (sb, sa, True)):
+                if p in self.scn.get('queries', {}):
+                    axis = self.scn['queries'][p]
+                    which = None
+                    if q == "%s[i_%s]" % (axis, axis):
+                        which = 0
+                    elif q == "%s[1 + i_%s]" % (axis, axis):
+                        which = 1
+                    if which is not None and ('rel_' + axis) in self.scn:
+                        rel = _BRACKET[self.scn['rel_' + axis]][which]
+                        if flip:
+                            rel = {'lt': 'gt', 'gt': 'lt', 'eq': 'eq', 'un': 'un', 'ge': 'le'}[rel]
+                        if rel in _TT:
+                            return _TT[rel][op]
+                        # 'ge' / 'le': strictness unknown
+                        known = {'ge': {'lt': False, 'ge': True}, 'le': {'gt': False, 'le': True}}[rel]
+                        if op in known:
+                            return known[op]
+                        raise Unsupported("comparison %s of the query with the lower end of its bracket is not determined by the scenario" % op, e)
             # length scenario: n_x compared with constants
             for (x, y, flip) in ((a, b, False), (b, a, True)):
                 if str(x.r).startswith('n_') and y.const() is not None and x.r.is_poly() and len(x.r.atoms()) == 1:
